@@ -279,9 +279,12 @@ type Machine struct {
 	intr       map[string]Intrinsic
 	Debug      bool
 
-	ForceFirst       bool
-	ForceFirstChoice int
-	choiceCalls      int
+	// sharding: the subtree below each depth-ShardDepth trail prefix belongs to shard hash(prefix)%ShardN
+	ShardN     int
+	ShardI     int
+	ShardDepth int
+	forkHash   uint32
+	forkCount  int
 }
 
 func NewMachine(p *Program, solverKind string, timeoutMs int) (*Machine, error) {
@@ -333,7 +336,8 @@ func (m *Machine) resetPath() {
 	m.inited = map[string]bool{}
 	m.sentinel = map[string]Value{}
 	m.pathNotes = nil
-	m.choiceCalls = 0
+	m.forkHash = 2166136261
+	m.forkCount = 0
 }
 
 func (m *Machine) addPC(t *smt.Term) {
@@ -356,19 +360,31 @@ func (m *Machine) check(extra *smt.Term, model []*smt.Term) (smt.Result, map[int
 // choose returns the alternative to follow at this choice point; compute is
 // called only when the point is new and must return the feasible alternatives.
 func (m *Machine) choose(compute func() []int) int {
+	var c choice
 	if m.pos < len(m.trail) {
-		c := m.trail[m.pos]
-		m.pos++
-		return c.alts[c.cur]
+		c = m.trail[m.pos]
+	} else {
+		alts := compute()
+		if len(alts) == 0 {
+			panic(pathAbort{"no feasible alternative"})
+		}
+		c = choice{alts: alts}
+		m.trail = append(m.trail, c)
+		m.Stats.ChoicePoints++
 	}
-	alts := compute()
-	if len(alts) == 0 {
-		panic(pathAbort{"no feasible alternative"})
-	}
-	m.trail = append(m.trail, choice{alts: alts})
 	m.pos++
-	m.Stats.ChoicePoints++
-	return alts[0]
+	alt := c.alts[c.cur]
+	if len(c.alts) > 1 && m.ShardN > 1 {
+		// only real forks count towards the shard prefix
+		if m.forkCount == m.ShardDepth {
+			if int(m.forkHash%uint32(m.ShardN)) != m.ShardI {
+				panic(pathAbort{"subtree of another shard"})
+			}
+		}
+		m.forkHash = (m.forkHash ^ uint32(alt+1)) * 16777619
+		m.forkCount++
+	}
+	return alt
 }
 
 // Branch decides a (possibly symbolic) condition, forking when both outcomes are feasible.
@@ -427,13 +443,7 @@ func (m *Machine) Choice(name string, n int) int {
 	}
 	name = m.uniqueName(name)
 	var v int
-	m.choiceCalls++
-	if m.ForceFirst && m.choiceCalls == 1 && m.Concrete == nil {
-		if m.ForceFirstChoice >= n {
-			panic(pathAbort{"shard beyond choice range"})
-		}
-		v = m.ForceFirstChoice
-	} else if m.Concrete != nil {
+	if m.Concrete != nil {
 		v = m.ConcChoice[name]
 		if v < 0 || v >= n {
 			v = 0
